@@ -542,9 +542,13 @@ judge_rs(int h, int ia, int ib, int replay)
 		       ta, tb, held_name[h], got, (long long)want, (long long)((I[ib].u - I[ib].s60) - (I[ia].u - I[ia].s60)), m_leaps_between(taia, taib));
 	}
 	if (!ok || !got[0] || *ep || g != want) {
-		snprintf(key, sizeof(key), "rS rep=%s sign=%c %sleaps-between=%s on-60=%s", held_name[h], want < 0 ? '-' : want > 0 ? '+' : '0',
-			 llabs(want) >= 2147483648LL ? "span=2^31-or-more " : I[ia].u >= 2147483648LL || I[ib].u >= 2147483648LL ? "operand=at-or-after-2^31 " : "",
-			 nleap_name(m_leaps_between(taia, taib)), I[ia].s60 || I[ib].s60 ? "yes" : "no");
+		if (llabs(want) >= 2147483648LL) {
+			snprintf(key, sizeof(key), "rS rep=%s sign=%c span=2^31-or-more", held_name[h], want < 0 ? '-' : '+');
+		} else {
+			snprintf(key, sizeof(key), "rS rep=%s sign=%c %sleaps-between=%s on-60=%s", held_name[h], want < 0 ? '-' : want > 0 ? '+' : '0',
+				 I[ia].u >= 2147483648LL || I[ib].u >= 2147483648LL ? "operand=at-or-after-2^31 " : "",
+				 nleap_name(m_leaps_between(taia, taib)), I[ia].s60 || I[ib].s60 ? "yes" : "no");
+		}
 		snprintf(cas, sizeof(cas), "RS %d %d %d", h, ia, ib);
 		snprintf(cmd, sizeof(cmd), "ddiff %s%s%s%s %s -f %%rS", held_ifmt[h] ? "-i '" : "", held_ifmt[h] ? held_ifmt[h] : "", held_ifmt[h] ? "' " : "", ta, tb);
 		ex_viol(key, (double)llabs(want), cas, h == H_DAISY ? NULL : cmd,
